@@ -11,7 +11,7 @@ history on the implementation and rewrites it to `po <member popped>` (DESIGN §
 """
 import itertools
 
-from .maplib import parse_atom, show_atom, atom_key, Validator, exc_name, EXCS  # noqa: F401
+from .maplib import parse_atom, show_atom, atom_key, Validator, Recorder, exc_name, EXCS  # noqa: F401
 
 
 def parse_atoms(s):
@@ -238,8 +238,8 @@ def trait_value_cases():
         ok, conv, bad = TRAIT_ITEMS[t]
         init = "[%s]" % ",".join(ok[:2])
         probes = ok[-1:] + conv[:1] + bad[:2]
-        for pre in OBJ_PREFIXES:
-            head = "to|%s|%s|%s" % (t, init, pre + ";" if pre else "")
+        for pre, kind in [(p, "to") for p in OBJ_PREFIXES] + [(p, "tof") for p in OBJ_PREFIXES[:6]]:
+            head = "%s|%s|%s|%s" % (kind, t, init, pre + ";" if pre else "")
             for x in probes:
                 yield head + "ad %s" % x
                 yield head + "ud L[%s] L[%s]" % (ok[-1], x)
@@ -268,7 +268,7 @@ def random_trait_history(rng, maxops=10):
             cmds.append("cp %s %s" % (rng.choice("dddcp"), rng.choice(ok + conv + bad)))
         else:
             cmds.append(random_cmd(rng, cur, neg=True, strs=True, copies=False))
-    return "to|%s|[%s]|%s" % (t, ",".join(init), ";".join(cmds))
+    return "%s|%s|[%s]|%s" % (rng.choice(["to", "to", "tof"]), t, ",".join(init), ";".join(cmds))
 
 
 def exhaustive_single_ops(tier, kind="ts"):
